@@ -4,9 +4,13 @@ import RedisVerif.Model.WalActor
 
 /-
   C09 sub-driver.  One line = one workload:
-    G <fix 0|1> <tickSyncs 0|1> <format 1|2> <maxSize> <maxEntries> F <nf> {<callIndex> <ok|fail|full|torn:K>}*
-      W <ngroups> {<nmsgs> {w <id> <ts> <hex> | f <id> <ts> <hex> | t | x <T>}*}*
-  (w = write_durable, f = write_fire_and_forget, t = sync_tick, x = truncate(T))
+    G <fix 0|1> <tickSyncs 0|1> <format 1|2> <reuseSeq 0|1> <maxSize> <maxEntries> K <nincarnations>
+      { F <nf> {<callIndex> <ok|fail|full|torn:K>}* D <deadFrom|->
+        W <ngroups> {<nmsgs> {w <id> <ts> <hex> | f <id> <ts> <hex> | t | x <T>}*}*
+        E <c|s|e> }*
+  (w = write_durable, f = write_fire_and_forget, t = sync_tick, x = truncate(T); D k = every I/O call
+   with index >= k of this incarnation fails, i.e. the machine is dying from call k on;
+   E c = machine crash then restart, E s = clean shutdown then restart, E e = end of the history)
   Output: the acks (sorted by id), the I/O call trace, and for EVERY crash index t (after t
   calls) the ids of the entries WAL recovery returns from the crash image.
 
@@ -43,48 +47,72 @@ def showAck : Ack → String
   | .err e => showErr e
 
 def showCall : Call → String
-  | .create s ok => s!"c{s}:{if ok then "ok" else "err"}"
+  | .create s ok existed => s!"c{s}:{if ok then "ok" else "err"}{if existed then ":over" else ""}"
+  | .crash => "crash"
   | .append s len o => s!"a{s}:{len}:{showOutcome o}"
   | .sync s ok => s!"s{s}:{if ok then "ok" else "err"}"
   | .delete s ok => s!"d{s}:{if ok then "ok" else "err"}"
+
+structure Inc where
+  faults : List (Nat × Outcome)
+  dead : Option Nat
+  groups : List (List Ev)
+  ending : String
 
 structure Workload where
   fix : Bool
   tick : Bool
   fmt : Format
+  reuse : Bool
   maxSize : Nat
   maxEntries : Nat
-  faults : List (Nat × Outcome)
-  groups : List (List Ev)
+  incs : List Inc
+
+def msgP : P Ev := do
+  let k ← tok
+  match k with
+  | "w" => do let id ← nat; let ts ← nat; let d ← bytesTok; pure (Ev.write ⟨id, d, ts⟩)
+  | "f" => do let id ← nat; let ts ← nat; let d ← bytesTok; pure (Ev.forget ⟨id, d, ts⟩)
+  | "t" => pure Ev.tick
+  | "x" => do let T ← nat; pure (Ev.truncate T)
+  | _ => failure
+
+def incP : P Inc := do
+  expect "F"
+  let nf ← nat
+  let fs ← repeatP nf (do let i ← nat; let o ← outcomeP; pure (i, o))
+  expect "D"
+  let d ← optNat
+  expect "W"
+  let ng ← nat
+  let gs ← repeatP ng (do let nw ← nat; repeatP nw msgP)
+  expect "E"
+  let e ← tok
+  pure ⟨fs, d, gs, e⟩
 
 def workloadP : P Workload := do
   expect "G"
   let f ← nat
   let tk ← nat
   let v ← nat
+  let ru ← nat
   let ms ← nat
   let me ← nat
-  expect "F"
-  let nf ← nat
-  let fs ← repeatP nf (do let i ← nat; let o ← outcomeP; pure (i, o))
-  expect "W"
-  let ng ← nat
-  let gs ← repeatP ng (do
-    let nw ← nat
-    repeatP nw (do
-      let k ← tok
-      match k with
-      | "w" => do let id ← nat; let ts ← nat; let d ← bytesTok; pure (Ev.write ⟨id, d, ts⟩)
-      | "f" => do let id ← nat; let ts ← nat; let d ← bytesTok; pure (Ev.forget ⟨id, d, ts⟩)
-      | "t" => pure Ev.tick
-      | "x" => do let T ← nat; pure (Ev.truncate T)
-      | _ => failure))
-  pure ⟨f != 0, tk != 0, if v = 1 then .v1 else .v2, ms, me, fs, gs⟩
+  expect "K"
+  let k ← nat
+  let incs ← repeatP k incP
+  pure ⟨f != 0, tk != 0, if v = 1 then .v1 else .v2, ru != 0, ms, me, incs⟩
 
-def oracleOf (fs : List (Nat × Outcome)) (i : Nat) : Outcome :=
-  match fs.find? (·.1 == i) with
-  | some p => p.2
-  | none => .ok
+def oracleOf (fs : List (Nat × Outcome)) (dead : Option Nat) (i : Nat) : Outcome :=
+  match dead with
+  | some d => if d ≤ i then .fail else
+    match fs.find? (·.1 == i) with
+    | some p => p.2
+    | none => .ok
+  | none =>
+    match fs.find? (·.1 == i) with
+    | some p => p.2
+    | none => .ok
 
 /-- insertion sort of acks by id (ids are distinct) -/
 def insertAck (a : AckRec) : List AckRec → List AckRec
@@ -96,12 +124,21 @@ def idOf (ws : List Write) (e : Entry) : String :=
   | some w => toString w.id
   | none => "?"
 
+def runInc (wl : Workload) (a : Actor) (inc : Inc) : Actor :=
+  let φ := oracleOf inc.faults inc.dead
+  let a1 := inc.groups.foldl (Actor.runGroup wl.fix wl.tick φ wl.fmt crc wl.maxEntries) a
+  match inc.ending with
+  | "c" => Actor.step wl.fix wl.tick φ wl.fmt crc a1 (.reopen true wl.reuse)
+  | "s" => Actor.step wl.fix wl.tick φ wl.fmt crc a1 (.reopen false wl.reuse)
+  | _ => a1
+
 def step (line : String) : String :=
   match runP workloadP line with
   | none => "bad-op"
   | some wl =>
-    let a := Actor.runGroups wl.fix wl.tick (oracleOf wl.faults) wl.fmt crc wl.maxSize wl.maxEntries wl.groups
-    let ws := wl.groups.flatten.filterMap (fun ev => match ev with | .write w => some w | .forget w => some w | _ => none)
+    let a := wl.incs.foldl (runInc wl) (Actor.init wl.maxSize)
+    let ws := (wl.incs.flatMap (fun i => i.groups.flatten)).filterMap
+      (fun ev => match ev with | .write w => some w | .forget w => some w | _ => none)
     let acks := a.acks.foldl (fun acc x => insertAck x acc) []
     let acksS := " ".intercalate (acks.map (fun x => s!"{x.id}={showAck x.res}"))
     let traceS := " ".intercalate (a.rot.w.trace.reverse.map showCall)
